@@ -211,6 +211,12 @@ func (h *hist) scenario(n int) {
 		if other != nil {
 			os2 = h.ensureOpen(other, 0, name, accRead)
 		}
+		if os2 != nil && step() {
+			h.renewOnlyImplicitly(other, os2, name)
+			if !step() {
+				return
+			}
+		}
 		c.vanished = true
 		h.note("%s vanishes", c)
 		h.sit("client-vanished")
@@ -221,6 +227,7 @@ func (h *hist) scenario(n int) {
 			}
 		}
 		jump(h.w, []*hist{h}, renewers)
+		delete(h.renewVia, other)
 		if !step() {
 			return
 		}
@@ -625,6 +632,56 @@ func (h *hist) releaseHoldsOfAllExcept(keep *client) {
 				}
 			}
 		}
+	}
+}
+
+// renewOnlyImplicitly arranges that during the next clock jump client c
+// does not send RENEW (4.0) or a bare SEQUENCE (4.1) but only a request
+// that carries one of its state IDs: READ with its open state ID, LOCKU
+// with a lock state ID (lock-owner sequencing) or OPEN_DOWNGRADE to the
+// access it already has (open-owner sequencing). Each of these paths
+// renews the lease on its own in the NFSv4.0 program. The kind is fixed
+// by the case number so that every kind is reached for both versions.
+func (h *hist) renewOnlyImplicitly(c *client, os *openState, name string) {
+	kind := (h.w.caseNo / (2 * numScenarios)) % 3
+	var ls *lockState
+	if kind == 1 {
+		// A lock state of c's own, on a file nobody else locks in
+		// this fragment.
+		name2 := fileNames[0]
+		if name2 == name {
+			name2 = fileNames[1]
+		}
+		if os3 := h.ensureOpen(c, 1, name2, accBoth); os3 != nil {
+			ls = h.lock(c, lockParams{newOwner: true, openSid: os3.sid, loKey: c.lockOwnerKey(1), fh: fhLeaf(os3.leaf), rangeIdx: 0, write: true, variant: "valid"})
+		}
+		if ls == nil {
+			kind = 0
+		}
+	}
+	ver := fmt.Sprintf(" v=4.%d", c.ver)
+	if h.renewVia == nil {
+		h.renewVia = map[*client]func() bool{}
+	}
+	h.renewVia[c] = func() bool {
+		if h.w.aborted.Load() {
+			return false
+		}
+		switch {
+		case kind == 1 && !ls.os.closed && ls.os.locks[ls.lo] == ls:
+			h.unlock(c, ls.sid, fhLeaf(ls.os.leaf), 1, 0, "valid")
+			h.sit("lease-renewed-only-by:LOCKU" + ver)
+		case kind == 2 && !os.closed && (c.ver == 1 || os.o.confirmed):
+			h.downgrade(c, os.sid, fhLeaf(os.leaf), os.access, 0, 0, "valid")
+			h.sit("lease-renewed-only-by:OPEN_DOWNGRADE" + ver)
+		case !os.closed && (c.ver == 1 || os.o.confirmed):
+			h.io(c, ioRead, os.sid, fhLeaf(os.leaf), "open-state-id")
+			h.sit("lease-renewed-only-by:READ" + ver)
+		default:
+			return h.renew(c)
+		}
+		h.sit("lease-renewed-only-by-state-bearing-request" + ver)
+		return !h.w.aborted.Load()
 	}
 }
 
